@@ -267,6 +267,7 @@ class C14(Engine):
     quick_runs = 2600
     thorough_runs = 20000
     thorough_budget = 900
+    variants = ("small",)
     rule = ("run i < %d (directed) = 96 lockstep cases of one step each: the real SimulateMsp430 against the reference model of "
             "sim/engine_c14.cpp, enumerating every cell (12 two-operand instructions x byte/word x 4 source modes x 2 destination modes x "
             "{PC,SP,SR,CG,Rn} source x {PC,SP,SR,CG,Rn} destination; 7 one-operand instructions x byte/word x 4 modes x 5 register "
@@ -291,6 +292,12 @@ class C14(Engine):
         return (len(cells()) * 16 + CASES_PER_RUN - 1) // CASES_PER_RUN
 
     def plan(self, rng, index):
+        plan = self._plan(rng, index)
+        # every third run uses the small-page build of /repo (256-byte memory pages)
+        plan["build"] = "small" if index % 3 == 2 else "san"
+        return plan
+
+    def _plan(self, rng, index):
         cs = cells()
         if index < self.directed():
             cases = []
@@ -343,6 +350,7 @@ class C14(Engine):
         return bytes(w.b)
 
     def run(self, ex, plan):
+        ex = self.variant(ex, plan.get("build"))
         if plan["kind"] == "lockstep":
             return self.run_lockstep(ex, plan)
         return self.run_session(ex, plan)
@@ -619,7 +627,7 @@ class C14(Engine):
             cases = plan["cases"]
             if len(cases) > 1:
                 for i in range(len(cases)):
-                    yield {"kind": "lockstep", "cases": [cases[i]]}
+                    yield {"kind": "lockstep", "cases": [cases[i]], "build": plan.get("build")}
                 return
             c = cases[0]
             if c["nsteps"] > 1:
